@@ -230,6 +230,11 @@ pub struct Exec {
     pub max_managed: usize,
 }
 
+/// An integer whose machine word, tag aside, is the address of `o`.
+fn decoy(o: Object) -> Object {
+    Object::int((heap_addr(o) >> 3) as isize)
+}
+
 fn payload_float(h: usize) -> f64 {
     1.5 + h as f64
 }
@@ -268,14 +273,37 @@ pub fn execute(history: &[Op]) -> Exec {
             Op::Unlink(a) => {
                 objs[*a].as_vec_mut().pop();
             }
+            // (decoys: next to every real operand the collector is shown INTEGERS whose bits are the address of
+            // some other object — a number is never an object, whatever it looks like: as a root it keeps nothing
+            // alive, handed over it takes nothing along, offered for tracing it is not taken)
             Op::Collect(roots) => {
                 let half = roots.len() / 2;
-                let r1: Vec<Object> = roots[..half].iter().map(|h| objs[*h]).collect();
-                let r2: Vec<Object> = roots[half..].iter().map(|h| objs[*h]).collect();
+                let mut r1: Vec<Object> = roots[..half].iter().map(|h| objs[*h]).collect();
+                let mut r2: Vec<Object> = roots[half..].iter().map(|h| objs[*h]).collect();
+                for (h, o) in objs.iter().enumerate() {
+                    if !roots.contains(&h) {
+                        let d = decoy(*o);
+                        if h % 2 == 0 { r1.push(d) } else { r2.insert(0, d) }
+                    }
+                }
                 g.run(&[r1.as_slice(), r2.as_slice()]);
             }
-            Op::Untrace(x) => g.untrace(objs[*x]),
-            Op::Retrace(x) => g.maybe_trace(objs[*x]),
+            Op::Untrace(x) => {
+                for (h, o) in objs.iter().enumerate() {
+                    if h != *x && next.objs[h].alive && next.objs[h].managed {
+                        g.untrace(decoy(*o));
+                    }
+                }
+                g.untrace(objs[*x])
+            }
+            Op::Retrace(x) => {
+                for (h, o) in objs.iter().enumerate() {
+                    if h != *x && next.objs[h].alive && !next.objs[h].managed {
+                        g.maybe_trace(decoy(*o));
+                    }
+                }
+                g.maybe_trace(objs[*x])
+            }
             Op::DropGC => {
                 gc = None;
                 gc = Some(GC::new());
